@@ -63,7 +63,27 @@ class _Canon(ast.NodeTransformer):
                 out.extend(self._canon_if(st))
             else:
                 out.append(st)
+        # `for ..: ... return E` followed directly by `return E` is `for ..: ... break` followed by `return E`
+        for k in range(len(out) - 1):
+            lp, nxt = out[k], out[k + 1]
+            if isinstance(lp, (ast.For, ast.While)) and not lp.orelse and isinstance(nxt, ast.Return) and nxt.value is not None:
+                want = ast.dump(nxt.value)
+                lp.body = self._returns_to_breaks(lp.body, want)
         return out
+
+    def _returns_to_breaks(self, body, want):
+        new = []
+        for st in body:
+            if isinstance(st, ast.Return) and st.value is not None and ast.dump(st.value) == want:
+                new.append(ast.copy_location(ast.Break(), st))
+                continue
+            if isinstance(st, ast.If):
+                st.body = self._returns_to_breaks(st.body, want)
+                st.orelse = self._returns_to_breaks(st.orelse, want)
+            elif isinstance(st, (ast.With, ast.Try)):
+                st.body = self._returns_to_breaks(st.body, want)
+            new.append(st)
+        return new
 
     def _canon_if(self, n: ast.If):
         if n.orelse and isinstance(n.test, ast.UnaryOp) and isinstance(n.test.op, ast.Not):
